@@ -214,6 +214,11 @@ func corruptions(f *idForm, s string, rng *rand.Rand) []corruption {
 	add("length-x2", mk(hx+hx))
 	add("length-x2-whole", s+s)
 	add("length-half", mk(hx[:len(hx)/2]))
+	// every even length below the right one, cut from either end (abbreviated forms as logs print them)
+	for n := 2; n < len(hx) && n <= 62; n += 2 {
+		add("length-abbreviated-tail", mk(hx[len(hx)-n:]))
+		add("length-abbreviated-head", mk(hx[:n]))
+	}
 	add("length-0", mk(""))
 	add("length-x8", mk(strings.Repeat(hx, 8)))
 	// prefix
